@@ -1554,7 +1554,8 @@ class SSHConnection(SSHPacketHandler, asyncio.Protocol):
 
         # pylint: disable=broad-except
         try:
-            while self._inpbuf and self._recv_handler():
+            # Stop parsing as soon as the connection has been closed
+            while self._inpbuf and self._transport and self._recv_handler():
                 pass
         except DisconnectError as exc:
             self._send_disconnect(exc.code, exc.reason, exc.lang)
